@@ -37,6 +37,7 @@ type Ctx struct {
 	Samples  []string
 	Fails    []PropFail
 	NOps     int
+	Direct   int // evaluations of the property made directly on the implementation (no model operation)
 	Distinct map[string]struct{}
 	Extra    map[string]interface{}
 }
@@ -174,7 +175,7 @@ func main() {
 	meta := map[string]interface{}{
 		"suite": name, "seed": *seed, "tier": *tier, "ops": c.NOps,
 		"distinct_nontrivial": len(c.Distinct), "stats": c.Stats, "samples": c.Samples,
-		"propfails": c.Fails, "wall_s": time.Since(t0).Seconds(), "extra": c.Extra,
+		"propfails": c.Fails, "wall_s": time.Since(t0).Seconds(), "extra": c.Extra, "direct": c.Direct,
 	}
 	b, _ := json.MarshalIndent(meta, "", " ")
 	if err := os.WriteFile(filepath.Join(*out, name+".json"), b, 0o644); err != nil {
